@@ -29,11 +29,11 @@ fn qlangs() -> Vec<QLang> {
             roots: vec![nk("binary"), nk("call"), nk("let_stmt"), nk("block"), Kind::AnyNamed, Kind::Any, Kind::Anon("+".into()), Kind::Error, Kind::Missing(None), Kind::Missing(Some(("identifier".into(), true))), Kind::Missing(Some((";".into(), false))), Kind::Super("_expr".into()), Kind::SuperSub("_expr".into(), "binary".into())],
             child_kinds: vec![Pat::new(nk("identifier")), Pat::new(nk("number")), Pat::new(nk("binary")), Pat::new(Kind::AnyNamed), Pat::new(Kind::Any), Pat::new(Kind::Anon("+".into())), Pat::new(Kind::Anon(";".into())), Pat::new(nk("comment")), Pat::new(nk("name")),
                               Pat::new(nk("paren")).child(Pat::new(nk("identifier")).cap("n1")), Pat::new(nk("args")).child(Pat::new(nk("number")).cap("n1")), Pat::new(Kind::Super("_expr".into()))],
-            fields: vec!["left", "right", "value", "fn", "name"], supertype: Some("_expr") },
+            fields: vec!["left", "right", "value", "fn", "name", "stmt"], supertype: Some("_expr") },
         QLang { name: "arith",
             roots: vec![nk("binary"), nk("call"), nk("paren"), Kind::AnyNamed, Kind::Error, Kind::Missing(None)],
             child_kinds: vec![Pat::new(nk("number")), Pat::new(nk("var")), Pat::new(nk("binary")), Pat::new(Kind::AnyNamed), Pat::new(Kind::Any), Pat::new(Kind::Anon("*".into())), Pat::new(nk("unary")).child(Pat::new(nk("var")).cap("n1"))],
-            fields: vec!["left", "right", "op", "fn"], supertype: None },
+            fields: vec!["left", "right", "op", "fn", "arg"], supertype: None },
         QLang { name: "jsonish",
             roots: vec![nk("array"), nk("object"), nk("pair"), nk("string"), Kind::AnyNamed, Kind::Error],
             child_kinds: vec![Pat::new(nk("number")), Pat::new(nk("string")), Pat::new(nk("array")), Pat::new(Kind::AnyNamed), Pat::new(Kind::Any), Pat::new(Kind::Anon(",".into())), Pat::new(nk("pair")).child(Pat::new(nk("string")).field("key").cap("n1")), Pat::new(nk("escape"))],
